@@ -13,6 +13,7 @@ import JanetModel.Parse.Latch
 import JanetModel.Parse.InsertPure
 import JanetModel.Parse.CapLemmas
 import JanetModel.Parse.EofClean
+import JanetModel.Parse.PhysRun
 
 namespace JanetModel.Props.C11
 open JanetModel.Parse JanetModel.PP JanetModel.Gen.Parse
@@ -623,5 +624,74 @@ theorem eof_clean_or_innermost (scan : List B → Option String) (bs : List B) :
     simp [h1, hfl]
   · right
     exact ⟨f, R, h1, h2, h3, (status_error_iff _).mpr (by simp [h3])⟩
+
+/-! ## memory discipline of parse.c: the physical machine (`Parse/Phys.lean`)
+
+`Parse/Phys.lean` re-writes every function on the path of `janet_parser_consume`, `janet_parser_eof`, `janet_parser_produce(_wrapped)`,
+`janet_parser_flush`, `janet_parser_error` statement by statement over memory primitives that CHECK the access the C statement
+performs (push inside the grown block; no `size_t` underflow of a count; `*state` / `newtop` point into the current `states` block
+and at a live frame; `buf[0]`, `args[0]`, `states[0]`, `states[stack_index]` live).  A failed check sets the sticky `fault` flag.
+`jm_c11` runs THIS machine in the correspondence (events, internal state and the three capacities come from it). -/
+
+/-- ★ the write of `push_buf` / `push_arg` / `_pushstate` (`STACK[oldcount] = x` after the growth test) is inside the block for EVERY
+    machine state, and the machine type carries `count ≤ capacity` (each primitive discharges it where the C grows the block) -/
+theorem phys_push_in_block (m : MP) (c : B) (v : Value) (cn : Consumer) (fl : Nat) :
+    (pushBufM m c).fault = m.fault ∧ (pushArgM m v).fault = m.fault ∧ (pushstateM m cn fl).fault = m.fault ∧
+    CapOK (pushBufM m c).k (pushBufM m c).p ∧ CapOK (pushArgM m v).k (pushArgM m v).p ∧ CapOK (pushstateM m cn fl).k (pushstateM m cn fl).p :=
+  ⟨pushBufM_fault m c, pushArgM_fault m v, pushstateM_fault m cn fl, (pushBufM m c).capok, (pushArgM m v).capok, (pushstateM m cn fl).capok⟩
+
+/-- ★ one consumer call (`state->consumer(parser, state, c)`) of the physical machine computes `Model.step`; needs only a frame -/
+theorem phys_step_refines (scan : List B → Option String) (m : MP) (c : B) (hne : m.p.states ≠ []) :
+    (stepM scan m c).1.p = (step scan m.p c).1 ∧ (stepM scan m c).2 = (step scan m.p c).2 := stepM_p scan m c hne
+
+/-- ★ ... and NONE of its checked accesses fails when the parser is well formed (`WF`: frame shape and argument counts) and a
+    token frame on top has a non-empty scratch buffer unless `c` is a symbol character: pops never underflow, `close_*` never takes
+    more arguments than the stack holds, `popstate` never reaches below the root frame, `state` is never stale -/
+theorem phys_step_safe (scan : List B → Option String) (m : MP) (c : B) (hwf : WF m.p) (ht : TokB m.p c) :
+    (stepM scan m c).1.fault = m.fault := stepM_safe scan m c hwf ht
+
+/-- ★ EVERY byte string, fed through the client protocol (consume; on error dequeue, take the error, go on) from `janet_parser_init`:
+    no checked memory access of the physical machine fails, and it computes exactly the logical run (parser and events) -/
+theorem phys_feed_safe (scan : List B → Option String) (bs : List B) :
+    (feedM scan MRun.init bs).m.fault = false ∧ (feedM scan MRun.init bs).m.p = (feed scan Run.init bs).p ∧
+    (feedM scan MRun.init bs).out = (feed scan Run.init bs).out := by
+  obtain ⟨h1, h2⟩ := feedM_spec scan bs MRun.init mok_init
+  have : (feedM scan MRun.init bs).abs = feed scan Run.init bs := h1
+  exact ⟨h2.safe, congrArg Run.p this, congrArg Run.out this⟩
+
+/-- ★ the same for a whole text (`parse-all`: feed, eof, drain): no fault, the events are `parseAll`'s -/
+theorem phys_parseAll_safe (scan : List B → Option String) (bs : List B) :
+    (finishM scan (feedM scan MRun.init bs)).m.fault = false ∧ (finishM scan (feedM scan MRun.init bs)).out = parseAll scan bs := by
+  obtain ⟨h1, h2⟩ := feedM_spec scan bs MRun.init mok_init
+  obtain ⟨f1, f2⟩ := finishM_spec scan _ h2
+  refine ⟨f2.safe, ?_⟩
+  have : (finishM scan (feedM scan MRun.init bs)).abs = finish scan (feed scan Run.init bs) := by rw [f1, h1]; rfl
+  exact congrArg Run.out this
+
+/-- ★ ANY history of raw API calls (bytes -- also on a latched or dead parser --, eof, produce, produce-wrapped, flush, error; no client
+    discipline) from `janet_parser_init`: no fault, the machine's parser is the logical model's, `count ≤ capacity` throughout -/
+theorem phys_history_safe (scan : List B → Option String) (ops : List OpM) :
+    (ops.foldl (runOpM scan) MP.init).fault = false ∧ (ops.foldl (runOpM scan) MP.init).p = ops.foldl (runOpL scan) Parser.init ∧
+    CapOK (ops.foldl (runOpM scan) MP.init).k (ops.foldl (runOpM scan) MP.init).p := by
+  obtain ⟨h1, h2, _⟩ := runOpsM_spec scan ops MP.init pinv_init
+  exact ⟨h2, h1, (ops.foldl (runOpM scan) MP.init).capok⟩
+
+/-- the shape facts behind `p->buf[0]`: along any such history every frame below the top is a `root` frame and a token frame on top
+    has a non-empty scratch buffer -/
+theorem token_scratch_nonempty (scan : List B → Option String) (ops : List OpM) :
+    TokInv (ops.foldl (runOpL scan) Parser.init) := (runOpsM_spec scan ops MP.init pinv_init).2.2.tok
+
+-- non-vacuity: a run that grows all three blocks, pops containers, dedents a long string and reports an error; and the checks are live
+example : (finishM (fun _ => none) (feedM (fun _ => none) MRun.init
+    [40, 64, 91, 34, 97, 92, 120, 52, 49, 34, 32, 96, 96, 10, 32, 120, 96, 96, 93, 32, 39, 98, 41, 32, 41])).m.fault = false := by decide +kernel
+example : ((finishM (fun _ => none) (feedM (fun _ => none) MRun.init [40, 64, 91, 34, 97, 34, 93, 32, 39, 98, 41, 32, 41])).out).length = 2 := by
+  decide +kernel
+example : (feedM (fun _ => none) MRun.init [40, 40, 40, 34, 97, 98, 99, 100, 101]).m.k = ⟨6, 6, 0⟩ := by decide +kernel
+example : (popArgsM MP.init 1).2.fault = true := by decide
+example : (decStateM (decStateM MP.init)).fault = true := by decide
+example : (tokencharM (fun _ => none) (pushstateM MP.init .tokenchar PFLAG_TOKEN) (topPtr (pushstateM MP.init .tokenchar PFLAG_TOKEN)) 32).1.fault
+    = true := by decide
+example : (writeState (pushstateM (pushstateM MP.init .root PFLAG_CONTAINER) .root PFLAG_CONTAINER) (topPtr MP.init) id).fault = true := by
+  decide
 
 end JanetModel.Props.C11
